@@ -247,6 +247,7 @@ pub fn run_case(cx: &mut Ctx) {
         5 => vec![0.25, f64::INFINITY],
         6 => vec![f64::NEG_INFINITY],
         7 => vec![0.5, f64::INFINITY, 1.0], // refused by the explicit constructor
+        8 if cx.case % 2 == 0 => vec![0.005, 0.02, 0.03, 0.06, 0.2, 0.3, 0.6, 2.0, 3.0, 6.0, 10.0], // same length, first and last as the defaults
         _ => vec![5e-324, 1.0, f64::MAX],
     };
     let strictly_increasing = buckets.windows(2).all(|w| w[0] < w[1]);
